@@ -403,11 +403,15 @@ def _explore_shard(h, shard, budget_s, path_timeout, max_fail_keep=40, max_sampl
 
 
 def _shard_task(arg):
-    (modname, tier, hid, shard_idx, budget_s, deadline) = arg
+    (modname, tier, hid, shard_idx, budget_s, deadline, nshards, procs) = arg
     t0 = time.time()
     try:
         h = load_harness(modname, tier, hid)
         shard = h.shards[shard_idx]
+        if nshards > procs:
+            # an equal share of what is left of the slice for every shard not yet started (shards are handed out in
+            # order): each one gets started, and time that finished shards did not need goes to the later, larger ones
+            budget_s = min(budget_s, max(3.0, (deadline - t0) * procs / max(1, nshards - shard_idx)))
         budget_s = min(budget_s, deadline - t0)
         if budget_s < 1.0:
             return dict(harness=hid, shard=shard, not_run=True, paths=0, ok=0, fail=0, ignored=0,
@@ -525,12 +529,9 @@ def run_harnesses(modname, tier, only=None, total_budget_s=None, procs=None, see
         remaining_cost -= h.cost
         deadline = now + slice_s
         args = []
-        # with more shards than workers every shard gets an equal share of the slice, so that each one is started
-        # (a shard that does not finish inside its share is reported as not exhausted)
-        fair = slice_s if len(h.shards) <= procs else max(3.0, slice_s * procs / len(h.shards))
         for i in range(len(h.shards)):
-            cap = min(h.shard_budget or slice_s, fair)
-            args.append((modname, tier, h.id, i, cap, deadline))
+            cap = h.shard_budget or slice_s
+            args.append((modname, tier, h.id, i, cap, deadline, len(h.shards), procs))
         with ctx.Pool(processes=min(procs, max(1, len(args))), maxtasksperchild=1) as pool:
             for r in pool.imap_unordered(_shard_task, args, chunksize=1):
                 results.append(r)
